@@ -563,6 +563,52 @@ class Body:
                 out |= self.atoms(o, depth, _seen, interproc)
         return out
 
+    def atoms_deep(self, x, depth=2, _seen=None):
+        """atoms(x) plus, for every local feeding x that is assigned on several branches (e.g. a flag set to
+        true / false in different arms), the atoms of the decisions those assignments are control dependent on."""
+        out = set(self.atoms(x))
+        if depth <= 0 or x is None or x.get("k") == "const":
+            return out
+        _seen = _seen if _seen is not None else set()
+        work = [x["pl"]["l"] if "pl" in x else x["l"]]
+        visited = set()
+        while work:
+            l = work.pop()
+            if l in visited:
+                continue
+            visited.add(l)
+            ds = self.defs.get(l, [])
+            blocks = {d[1] for d in ds}
+            if len(ds) >= 2 and l not in _seen and l > self.fn["arg_count"]:
+                _seen.add(l)
+                for b in blocks:
+                    for (cb, succ) in self.control_deps.get(b, ()):
+                        t = self.term(cb)
+                        if t["k"] != "switch":
+                            continue
+                        si = self.switch_info(cb)
+                        src = {"pl": si["place"]} if si and si["kind"] == "discr" else t["op"]
+                        if src.get("k") == "const":
+                            continue
+                        out |= self.atoms_deep(src if "pl" in src else {"pl": src}, depth - 1, _seen)
+            for d in ds:
+                if d[0] == "stmt":
+                    rv = d[3]["rv"]
+                    for key in ("op", "a", "b"):
+                        o = rv.get(key)
+                        if isinstance(o, dict) and o.get("k") in ("copy", "move"):
+                            work.append(o["pl"]["l"])
+                    if "pl" in rv:
+                        work.append(rv["pl"]["l"])
+                    for o in rv.get("ops", []):
+                        if o.get("k") in ("copy", "move"):
+                            work.append(o["pl"]["l"])
+                elif d[0] == "call":
+                    for o in d[2]["ops"]:
+                        if o.get("k") in ("copy", "move"):
+                            work.append(o["pl"]["l"])
+        return out
+
     def fields_of(self, x, **kw):
         return {(a[1], a[2]) for a in self.atoms(x, **kw) if a[0] == "field"}
 
@@ -602,6 +648,8 @@ class Body:
             return None
         if rv["k"] == "use":
             return self.fold(rv["op"], depth + 1)
+        if rv["k"] == "ref" and not [p for p in rv["pl"]["p"] if p != "deref"]:
+            return self.fold({"pl": rv["pl"]}, depth + 1)
         if rv["k"] == "cast":
             v = self.fold(rv["op"], depth + 1)
             if v is None:
